@@ -1,3 +1,12 @@
 #[allow(unused_imports)] use vstd::arithmetic::{div_mod::*, power2::*, mul::*};
 #[allow(unused_imports)] use vstd::bits::*;
 #[allow(unused_imports)] use vstd::std_specs::bits::*;
+
+verus! {
+impl ZmodN {
+    /// value of the modulus
+    pub closed spec fn nval(&self) -> nat { uv(self.n) }
+    pub closed spec fn ninv(&self) -> u64 { self.ninv64 }
+    pub closed spec fn kval(&self) -> nat { self.k as nat }
+}
+} // verus!
